@@ -548,11 +548,17 @@ static std::string polyBrief(const Polygons& p) {
   return s;
 }
 static bool cmpPolys(Env& e, const char* fn, ManifoldPolygons* c, const Polygons& p) {
-  Polygons cp = pullPolygons(e, c, e.r.chance(0.3));
+  bool viaSimple = e.r.chance(0.3);
+  Polygons cp = pullPolygons(e, c, viaSimple);
   if (e.stop) return false;
   e.c.count("polygons_compared");
   if (polysEq(cp, p) && vo::HashPolygons(cp) == vo::HashPolygons(p)) return true;
-  e.fail(std::string("mismatch:") + fn + ":polygons", vh::J().s("fn", fn).s("c", polyBrief(cp)).s("cpp", polyBrief(p)));
+  // blame: if the other read path agrees with the C++ value, the read path is at fault, not `fn`
+  Polygons other = pullPolygons(e, c, !viaSimple);
+  if (e.stop) return false;
+  std::string key = std::string("mismatch:") + fn + ":polygons";
+  if (polysEq(other, p)) key = viaSimple ? "mismatch:manifold_polygons_get_simple:polygons" : "mismatch:manifold_polygons_get_point:polygons";
+  e.fail(key, vh::J().s("fn", fn).s("c", polyBrief(cp)).s("c_other_read_path", polyBrief(other)).s("cpp", polyBrief(p)));
   return false;
 }
 
@@ -861,9 +867,9 @@ static Raw genRaw(Env& e, bool wantValid, bool f32, bool allowTangents, int merg
     }
     else if (bad == 4) { r.mFrom.push_back(r.nVert() + 3); r.mTo.push_back(0); r.kind += "!merge-oob"; }
     else {
-      uint32_t id = Manifold::ReserveIDs(2);
+      uint32_t id = Manifold::ReserveIDs(3);  // 3 IDs, 2 run indices: neither n+1 nor n (both are accepted)
       r.runIndex = {0, 3 * r.nTri()};
-      r.runID = {id, id + 1};
+      r.runID = {id, id + 1, id + 2};
       r.kind += "!runIndex-length";
     }
   }
@@ -1135,6 +1141,11 @@ static bool cmpEc(Env& e, EcT& t) {
   return cmpI(e, "manifold_execution_context_cancelled", "value", CF(manifold_execution_context_cancelled)(t.c), t.p->Cancelled() ? 1 : 0) &&
          cmpD(e, "manifold_execution_context_progress", "value", CF(manifold_execution_context_progress)(t.c), t.p->Progress());
 }
+static void cancelBoth(Env& e, EcT& t) {
+  CF(manifold_execution_context_cancel)(t.c);
+  t.p->Cancel();
+  cmpI(e, "manifold_execution_context_cancel", "cancelled-afterwards", CF(manifold_execution_context_cancelled)(t.c), t.p->Cancelled() ? 1 : 0);
+}
 static void levelSet(Env& e, int variant) {  // 0 plain, 1 seq, 2 ec, 3 ec seq
   static const char* names[] = {"manifold_level_set", "manifold_level_set_seq", "manifold_execution_context_level_set",
                                 "manifold_execution_context_level_set_seq"};
@@ -1156,7 +1167,7 @@ static void levelSet(Env& e, int variant) {  // 0 plain, 1 seq, 2 ec, 3 ec seq
   if (variant >= 2) {
     ec = newEc(e);
     cancel = e.r.chance(0.25);
-    if (cancel) { CF(manifold_execution_context_cancel)(ec.c); ec.p->Cancel(); }
+    if (cancel) cancelBoth(e, ec);
   }
   g_expectCtx = sc;
   g_ctxBad = 0;
@@ -1382,7 +1393,7 @@ static void ofMesh(Env& e, int variant) {  // 0 of_meshgl 1 of_meshgl64 2 ec_of_
   if (useEc) {
     ec = newEc(e);
     cancel = e.r.chance(0.3);
-    if (cancel) { CF(manifold_execution_context_cancel)(ec.c); ec.p->Cancel(); }
+    if (cancel) cancelBoth(e, ec);
   }
   if (!is64) {
     int i = pickMesh(e);
@@ -1451,7 +1462,7 @@ static void smoothMesh(Env& e, int variant) {  // 0 smooth 1 smooth64 2 ec_smoot
   if (useEc) {
     ec = newEc(e);
     cancel = e.r.chance(0.3);
-    if (cancel) { CF(manifold_execution_context_cancel)(ec.c); ec.p->Cancel(); }
+    if (cancel) cancelBoth(e, ec);
   }
   std::string args = "(" + (is64 ? e.meshes64[i].how : e.meshes[i].how) + ",he=" + fmtv(he) + ",s=" + fmtv(sm) + (cancel ? ",cancelled" : "") + ")";
   if (!is64) {
@@ -1970,16 +1981,14 @@ static void e_obj(Env& e) {
 }
 
 // ---- execution contexts: progress / cancel observed through a deferred tree
-static void e_exec_ctx(Env& e) {
+static void execCtx(Env& e, bool cancel) {
   PICK_MAN(a, 600);
   PICK_MAN(b, 600);
   EcT ec = newEc(e);
   if (!cmpEc(e, ec)) { e.release(ec.s); return; }
-  bool cancel = e.r.chance(0.4);
   if (cancel) {
-    CF(manifold_execution_context_cancel)(ec.c);
-    ec.p->Cancel();
-    if (!cmpEc(e, ec)) { e.release(ec.s); return; }
+    cancelBoth(e, ec);
+    if (e.stop || !cmpEc(e, ec)) { e.release(ec.s); return; }
   }
   // (a op b).with_context(ec) — the tree is NOT evaluated before the context is attached
   const OpRow& op = kOp[e.r.below(3)];
@@ -2001,6 +2010,8 @@ static void e_exec_ctx(Env& e) {
   e.release(su);
   e.release(ec.s);
 }
+static void e_exec_ctx(Env& e) { execCtx(e, false); }
+static void e_exec_ctx_cancelled(Env& e) { execCtx(e, true); }
 
 // ---------------------------------------------------------------- entries: cross-sections
 static void e_cs_empty(Env& e) {
@@ -2599,7 +2610,7 @@ static const Entry kTable[] = {
     {"minkowski_sum", e_minkowski_sum}, {"minkowski_difference", e_minkowski_difference}, {"manifold_vec", e_manifold_vec},
     {"batch_boolean", e_batch_boolean}, {"batch_hull", e_batch_hull}, {"compose", e_compose}, {"decompose", e_decompose},
     {"slice", e_slice}, {"project", e_project}, {"min_gap", e_min_gap}, {"winding_number", e_winding_number}, {"ray_cast", e_ray_cast}, {"ray_cast_aimed", e_ray_cast_aimed},
-    {"reserve_ids", e_reserve_ids}, {"obj", e_obj}, {"exec_ctx", e_exec_ctx}, {"info", e_info},
+    {"reserve_ids", e_reserve_ids}, {"obj", e_obj}, {"exec_ctx", e_exec_ctx}, {"exec_ctx_cancelled", e_exec_ctx_cancelled}, {"info", e_info},
     {"cs_empty", e_cs_empty}, {"cs_square", e_square}, {"cs_circle", e_circle}, {"cs_copy", e_cs_copy},
     {"cs_of_simple_polygon", e_cs_of_simple_polygon}, {"cs_of_polygons", e_cs_of_polygons}, {"cs_even_odd_simple_polygon", e_cs_even_odd_simple},
     {"cs_even_odd_polygons", e_cs_even_odd_polygons}, {"cs_hull_simple_polygon", e_cs_hull_simple}, {"cs_hull_polygons", e_cs_hull_polygons},
@@ -2799,7 +2810,12 @@ void vh_case(vh::Ctx& c) {
   if (e.stop) g_sawViolation = true;
   else g_fullSweeps++;
   std::string tail = e.logTail(12);
-  if (c.idx % 53 == 0 && !e.stop) c.sample(vh::J().i("idx", c.idx).i("steps", (long long)e.log.size()).raw("program_head", e.logTail(1 << 20).substr(0, 1500) + "\"...\"]").str(), 2);
+  if (c.idx % 53 == 0 && !e.stop) {
+    std::string head = "[";
+    for (size_t i = 0; i < e.log.size() && i < 14; i++) head += (i ? ",\"" : "\"") + vh::jesc(e.log[i].substr(0, 160)) + "\"";
+    head += "]";
+    c.sample(vh::J().i("idx", c.idx).i("steps", (long long)e.log.size()).raw("program_head", head).str(), 2);
+  }
   // every object ends exactly once
   c.site("release-all");
   e.releaseAll();
